@@ -140,6 +140,9 @@ class NumpyFuncs:
 
     def np_repeat(self, st, args, kw, node):
         v, n = args[0], args[1]
+        if isinstance(v, Opaque) and v.tag == "float" and v.payload != v.payload:      # np.nan
+            self.oblige(st, num_cmp(">=", n, 0), "lib", "np.repeat: non-negative count", node)
+            return Arr((n,), lambda i: Fraction(0), "real", own=True, nanmask=lambda i: True)
         if isinstance(v, Arr):
             if v.rank == 1 and isinstance(v.shape[0], int) and v.shape[0] == 1:
                 e, k = v.get(0), v.kind
